@@ -44,7 +44,7 @@ BOUNDED = {
  'C16': [('bounded/json', ['-n', '2'], ['-n', '3'],
           'the JSON-to-tree mapping of ReadJson: enumerated JSON values (nesting, empty containers, duplicate/empty/unusual keys, scalars, several top-level values) compared with the documented #obj/#arr tree; every proper prefix of short renderings and 23 malformed texts must be rejected')],
  'C17': [('bounded/html', ['-n', '3'], ['-n', '4'],
-          'the HTML-to-tree mapping of ReadHtml: documents assembled from 25 markup fragments after a doctype, compared node by node with the golang.org/x/net/html parse tree (local names, attributes minus xmlns with prefixes stripped, text, comments, no namespaces), incl. a 300-deep and a 2000-wide document')],
+          'the HTML-to-tree mapping of ReadHtml: documents assembled from 26 markup fragments (incl. empty comments) after a doctype, compared node by node with the golang.org/x/net/html parse tree (local names, attributes minus xmlns with prefixes stripped, text, comments, no namespaces), incl. a 300-deep and a 2000-wide document')],
  'C19': [('bounded/unmarshal', [], [],
           'Unmarshal (reflection): a 31-field struct of every supported kind (incl. values at and beyond 2^63), pointer depths 0-2, slices, nested structs and untagged fields, through *T and **T, four slice targets, compared with tag-by-tag evaluation; 23 unsupported targets / wrong shapes must yield errors without panic; a self-referential type probed in a child process')],
  'C10': [('bounded/store', ['-n', '7'], ['-n', '8'],
